@@ -544,3 +544,9 @@ Proof.
     rewrite dec_steps_enc. apply model_run_meets_spec.
     apply Forall_forall. intros o Ho. apply wf_sopb_wf. rewrite forallb_forall in Hwf. auto.
 Qed.
+
+Lemma wf_corpus_examples :
+  wf_C34 (VL [VZ 7; VL [VL [VZ 5; VZ 100000]; VL [VZ 1; VZ 1; VZ 200000]; VL [VZ 5; VZ 4465]; VL [VZ 4; VZ 0; VZ 1000000]]]) = true /\
+  wf_C34 (VL [VL [VZ 5; VZ 0; VZ 10]; VL [VZ 6; VZ 4]; VL [VZ 1; VZ 1; VZ 6];
+              VL [VZ 2; VL [VZ 1; VZ 1; VZ 7; VZ 9; VZ 1]]; VL [VZ 3]; VL [VZ 3]; VL [VZ 5; VZ 1; VZ 20]; VL [VZ 3]]) = true.
+Proof. split; reflexivity. Qed.
